@@ -41,3 +41,16 @@ Theorem C11_all_due_processed_and_deadline : forall t0of rof c ops now,
   (forall id p0, In (Out id false p0) ev -> now < deadline t0of rof c1 id /\ In id (ids_t (T c'))).
 Proof. exact AgentSched.run_tmo_deadline. Qed.
 Print Assumptions C11_all_due_processed_and_deadline.
+
+(* ---- the property in exactly the form in which the implementation is judged: the spec monitor of this property
+   (Agent/Monitors.v, written from the property text; it runs on every observed call of the implementation) accepts EVERY
+   step of EVERY well-formed history of the model (fresh transaction ids, monotone instants, positive RTO), for every
+   configuration. `obs_of` (Proofs/AgentMeets.v) builds the observation of a model step the way ocaml/driver.ml builds it
+   from the implementation's output; run_mon runs model and monitors in lockstep; every step is judged (run_mon_judged). *)
+From Rustun Require Import Agent.Rto Agent.Model Agent.Monitors Proofs.AgentMeets.
+Theorem C11_model_meets_monitor : forall (cf:config) (m:mech) (mc:mcfg) (cc:ccfg) (ops:list op),
+  consistent mc cf -> well_formed_history ops -> verdicts_true 11 (run_mon mc cc (init cf m) (mall0 cc) ops).
+Proof. exact AgentMeets.model_meets_C11. Qed.
+Print Assumptions C11_model_meets_monitor.
+Theorem C11_every_step_judged : forall mc cc ops c s vs, In vs (run_mon mc cc c s ops) -> exists b cl, In (11%N, b, cl) vs.
+Proof. intros mc cc ops c s vs H. apply (AgentMeets.run_mon_judged mc cc ops c s vs 11 H). cbn. tauto. Qed.
